@@ -114,7 +114,7 @@ func actSpecs(rank int) []actSpec {
 	if rank >= 1 {
 		specs = append(specs, actSpec{"Softmax{}", ref.Instr{Op: "softmax", Dim: 0}, func() (fwd, error) { return &activations.Softmax{}, nil }})
 	}
-	for _, m := range []float64{0, 0.01, 0.5, 1, 2, -0.3, 1e-300, 1e5} {
+	for _, m := range []float64{0, 0.01, 0.5, 1, 2, -0.3, 1e-300, 1e5, -1, -1.5, -1e3} {
 		m := m
 		specs = append(specs, actSpec{fmt.Sprintf("LeakyRelu(%g)", m), ref.Instr{Op: "leakyrelu", F: m},
 			func() (fwd, error) {
